@@ -1583,12 +1583,6 @@ func checkC17(in *exConcInput) []exFinding {
 	if err := json.Unmarshal(in.Shared.Docs[in.Shared.Root], env.typed); err != nil {
 		return []exFinding{{Shape: "bad-input", What: err.Error()}}
 	}
-	// sequential reference: each task alone (the shared cache starts empty in both runs)
-	seqEnv := &exConcEnv{shared: in.Shared, typed: env.typed, cache: newExMapCache()}
-	want := make([]*exOutcome, len(in.Tasks))
-	for i, c := range in.Tasks {
-		want[i] = seqEnv.run(c)
-	}
 	type result struct {
 		g, task int
 		o       *exOutcome
@@ -1624,11 +1618,25 @@ func checkC17(in *exConcInput) []exFinding {
 		return []exFinding{{Shape: "deadlock", What: fmt.Sprintf("%d goroutines do not finish within %s", len(in.Schedule), 6*exTimeout)}}
 	}
 	close(results)
+	// sequential reference: each task alone, made after the concurrent phase so that the goroutines
+	// meet whatever lazily initialised state the library has in its cold state (the shared cache
+	// starts empty in both runs)
+	seqEnv := &exConcEnv{shared: in.Shared, typed: env.typed, cache: newExMapCache()}
+	want := make([]*exOutcome, len(in.Tasks))
+	for i, c := range in.Tasks {
+		want[i] = seqEnv.run(c)
+	}
 	var fs []exFinding
 	for r := range results {
 		c := in.Tasks[r.task]
 		if d := exConcSame(env, c, want[r.task], r.o); d != "" {
-			fs = append(fs, exFinding{Shape: "concurrent-result-differs", What: fmt.Sprintf("goroutine %d, task %d (%s): the result differs from the sequential reference", r.g, r.task, exCallLabel(c)), Obs: d})
+			shape := "concurrent-result-differs"
+			if len(c.Docs) > 0 { // an outcome that depends on map order on a graph with a known defect
+				shape = exShape(shape, exCallGraph(c), c.Opts.Abs)
+			} else if c.Op == "shared_expand" {
+				shape = exShape(shape, in.Shared, c.Opts.Abs)
+			}
+			fs = append(fs, exFinding{Shape: shape, What: fmt.Sprintf("goroutine %d, task %d (%s): the result differs from the sequential reference", r.g, r.task, exCallLabel(c)), Obs: d})
 		}
 	}
 	return exFirstPerShape(fs)
